@@ -9,6 +9,7 @@ export GOFLAGS=-mod=mod GOPROXY=off GOWORK=off
 cp /repo/go.sum "$ROOT/harness/go.sum" || exit 1
 (cd "$ROOT/harness" && go build -o /dev/null ./cmd/verif && go vet ./mockdrv/) || { echo "harness does not build"; exit 1; }
 (cd /repo && go build -o /dev/null .) || { echo "moq does not build"; exit 1; }
-java -cp /opt/veriftools/tla/tla2tools.jar tlc2.TLC -h >/dev/null 2>&1 || { echo "TLC not runnable"; exit 1; }
+java -version >/dev/null 2>&1 || { echo "java not runnable"; exit 1; }
+[ -f /opt/veriftools/tla/tla2tools.jar ] || { echo "tla2tools.jar missing"; exit 1; }
 mkdir -p "$ROOT/evidence"
 echo setup ok
